@@ -16,6 +16,7 @@ ID = "C10"
 LEVEL = "exploration"
 CONTRACTS = True  # icontract postconditions on AlignedStream.read/peek/seek fire during this workload too
 STEP_BUDGET = 20_000_000
+HANDLE_CLOSE_CHECK = True
 ANCHOR_FILES = ["dissect/hypervisor/disk/vmdk.py", "dissect/hypervisor/disk/hdd.py"]
 RULE = (
     "Disks assembled from several backing files on real temp directories: VMDK descriptors naming 1..8 extents of "
